@@ -59,6 +59,21 @@ class Eval(object):
     def member_record(self, f, n):
         """for `m.foo()` with m a data member: the member's record type name"""
         base = strip(n["c"][0]["c"][0]) if n["c"][0].get("c") else None
+        if base is not None and base["k"] == "CXXMemberCallExpr" and len(base.get("c", [])) == 1 and base.get("callee"):
+            # `accessor().foo()` with `T& accessor() { return member_; }` on this object: the member behind the accessor
+            me = strip(base["c"][0])
+            obj = strip(me["c"][0]) if me.get("c") else None
+            h = self.db.fn(base["callee"])
+            if obj is not None and obj["k"] == "CXXThisExpr" and h is not None and h.get("body"):
+                e = ret_expr(h)
+                e0 = facts.strip_all(e) if e is not None else None
+                if e0 is not None and e0["k"] == "MemberExpr" and e0.get("isfield") and strip(e0["c"][0])["k"] == "CXXThisExpr":
+                    t = facts.ty(h, e0)
+                    while t and t.get("k") == "ref":
+                        t = t.get("to")
+                    if t and t.get("k") == "rec":
+                        return t["name"]
+            return None
         if base is None or base["k"] != "MemberExpr" or not base.get("isfield"):
             return None
         t = facts.ty(f, base)
@@ -397,14 +412,37 @@ def helpers(db, rep, F):
     from vlib import cfg, cond
     n = 0
     for fid, f in sorted(db.functions.items()):
-        is_find = fid.startswith("Tins::PDU::find_pdu<") and not fid.rstrip().endswith("const")
+        is_find = fid.startswith("Tins::PDU::find_pdu<")
         is_cast = fid.startswith("Tins::tins_cast<") and "*" in fid.split("(")[0]
         if not (is_find or is_cast) or not f.get("body"):
             continue
-        n += 1
         key = "%s" % fid.replace("Tins::", "")[:110]
         g = cfg.FnCFG(f)
         rets = [x for x in facts.fn_nodes(f) if x["k"] == "ReturnStmt" and x.get("c")]
+        if is_find:
+            # an overload that only forwards to its const / non-const sibling (same T, same flag, on this very object) adds
+            # nothing of its own: the sibling is the instance that is checked
+            def forwards(r_):
+                e_ = facts.strip_all(r_["c"][0])
+                while e_["k"] in ("CXXConstCastExpr", "CXXStaticCastExpr") and e_.get("c"):
+                    e_ = facts.strip_all(e_["c"][0])
+                if e_["k"] != "CXXMemberCallExpr" or e_.get("cname") != "find_pdu" or len(e_["c"]) != 2:
+                    return False
+                sib = (e_.get("callee") or "").split("(")[0]
+                if sib != fid.split("(")[0]:
+                    return False
+                obj = facts.strip_all(facts.inline_locals(f, e_["c"][0]["c"][0], all_types=True)) if e_["c"][0].get("c") else None
+                while obj is not None and obj["k"] in ("CXXConstCastExpr", "CXXStaticCastExpr") and obj.get("c"):
+                    obj = facts.strip_all(obj["c"][0])
+                arg = facts.strip_all(e_["c"][1])
+                return obj is not None and obj["k"] == "CXXThisExpr" and arg.get("var") in [p_["var"] for p_ in f["params"]]
+            if rets and all(forwards(r_) for r_ in rets) and len(list(facts.fn_nodes(f))) < 40:
+                sib_ok = any(g_ is not f and g_id.split("(")[0] == fid.split("(")[0] and g_.get("body") for g_id, g_ in db.functions.items())
+                if sib_ok:
+                    rep.ok("helpers", key, facts.loc(f), "forwards to the other const-ness overload of the same search")
+                    n += 1
+                    continue
+        n += 1
         bad = None
         casts = 0
         # operands of the returned value: split conditionals
